@@ -30,6 +30,7 @@ func C07(r *core.Run) {
 	convertedFilesInOrder(r) // the lint path links the converted files in the order they come
 	exportsOfThisPackageOnly(r)
 	refsCollectedEverywhere(r)
+	rawBodyTypeAgreement(r)
 	valueNamePrefixGuard(r)   // a rule may name an enum option as it was declared
 	nestingBuildersBounded(r) // the schema walker recurses once per nested block
 	fieldAttributes(r)        // incl. the name of the synthetic map entry message: a mismatch with the field name is a link error
